@@ -84,6 +84,7 @@ def check_result(ctx, cells, keys, kind, r, all_keys=False, positions=None, view
                     i0 = i
                     break
             ctx.prove(i0 is not None, "all-keys mode: the reported key really has a candidate block")
+            ctx.prove(r.xorencoded is (view == "xorencoded"), "all-keys mode: xorencoded flag (want %s)" % (view == "xorencoded"))
             if i0 is not None:
                 ctx.prove(deep_eq(as_bytes(r.config_block), unxor(cells[i0:i0 + 4096], k)), "all-keys mode: block == first candidate of the reported key")
         else:
@@ -274,7 +275,7 @@ def concrete_candidates(cells, keys, near):
 # ----------------------------------------------------------------------------------------------------------------------
 
 
-def h_container(arch, key, stublen, encoded, sym_nonce=False):
+def h_container(arch, key, stublen, encoded, sym_nonce=False, all_keys=False, nonce_pattern=None):
     def body(ctx):
         proto = SymBytes([0] + sym_bytes("proto", 1).cells)
         blk = small_block(key, proto.cells, extra=24)
@@ -284,18 +285,24 @@ def h_container(arch, key, stublen, encoded, sym_nonce=False):
         keys = [0x69, 0x2E, 0x00]
         kw = {}
         if key not in keys:
-            kw["xor_keys"] = [bytes([key])]
-            keys = [key]
+            if all_keys:
+                kw["all_xor_keys"] = True
+            else:
+                kw["xor_keys"] = [bytes([key])]
+                keys = [key]
         if encoded:
             # (a symbolic nonce makes every encoded byte symbolic: thorough tier only; C09 decides detection for symbolic nonces)
             nonce = sym_bytes("nonce", 4) if sym_nonce else SymBytes([0x5A, 0xC3, 0x11, 0x7E])
+            if nonce_pattern is not None:
+                sn = sym_bytes("nonce", 4)
+                nonce = SymBytes([sn.cells[i] if b is None else b for i, b in enumerate(nonce_pattern)])
             stub = SymBytes([0x90] * (stublen - 3) + [0xFF, 0xFF, 0xFF]) if stublen >= 3 else SymBytes([0x90] * stublen)
             data = XE.encode(plain, nonce, stub)
         else:
             data = plain
         kind, r = outcome(BeaconConfig.from_file, mkfile(data, False), **kw)
         pos = [lay["ptrs"][0] + d for d in range(-6, 7)]
-        check_result(ctx, plain.cells, keys, kind, r, positions=[p for p in pos if 0 <= p], view="xorencoded" if encoded else "raw")
+        check_result(ctx, plain.cells, keys, kind, r, all_keys=all_keys, positions=[p for p in pos if 0 <= p], view="xorencoded" if encoded else "raw")
         if kind == "ok":
             ctx.prove(r.architecture == arch, "architecture of the embedding image")
             ctx.prove(deep_eq(r.pe_compile_stamp, 0x04030201), "compile stamp of the embedding image")
@@ -357,6 +364,15 @@ def instances(tier):
             for st in ((5,) if q else (0, 5, 64)):
                 out.append(Instance("H3 XorEncoded %s key=%02x stub=%d" % (arch, key, st), h_container(arch, key, st, True, sym_nonce=not q and st == 5),
                                     dict(kind="H3", arch=arch, key=key, encoded=True, stub=st, symbolic_nonce=(not q and st == 5), cost=10 ** 7), split=6, max_loop=20000))
+    # XorEncoded stage whose block key is only reached by the all-keys retry (the xorencoded flag must survive the retry)
+    out.append(Instance("H3 XorEncoded x86 key=cc stub=5 all-keys", h_container("x86", 0xCC, 5, True, all_keys=True),
+                        dict(kind="H3", arch="x86", key=0xCC, encoded=True, stub=5, keys="all", cost=10 ** 7), split=6, max_loop=20000))
+    # stage without an end-of-stub marker whose nonce begins ff ff ff: located through the size field although the marker search hits
+    if not q:
+        out.append(Instance("H3 XorEncoded x86 key=2e stub=0 nonce=ff ff ff ??", h_container("x86", 0x2E, 0, True, nonce_pattern=[0xFF, 0xFF, 0xFF, None]),
+                            dict(kind="H3", arch="x86", key=0x2E, encoded=True, stub=0, nonce="ff ff ff + 1 symbolic byte", cost=10 ** 7), split=6, max_loop=20000))
+    out.append(Instance("H3 XorEncoded x86 key=69 stub=2 (no marker) nonce=?? ff ff ff", h_container("x86", 0x69, 2, True, nonce_pattern=[0x10 if q else None, 0xFF, 0xFF, 0xFF]),
+                        dict(kind="H3", arch="x86", key=0x69, encoded=True, stub=2, nonce="1 symbolic byte + ff ff ff", cost=10 ** 7), split=6, max_loop=20000))
     return out
 
 
